@@ -51,7 +51,9 @@ class C03(Prop):
             "alternate spelling) x candidate derived from the spec version (same / trailing zeros / shorter / longer / "
             "last component +-1 / epoch +-1, suffixes kept-dropped-nudged-redrawn, local label none-own-other) x "
             "prereleases setting (call argument True in 55%, constructor override); plus spec.parse on spelled and "
-            "malformed clauses, _version_split on rendered/raw/damaged version texts, _pad_version on token lists; "
+            "malformed clauses, spec.clause (is the stored text readable as a clause), the Lean reference semantics "
+            "against the Python reference on structures (s.spec.admits), _version_split on rendered/raw/damaged version "
+            "texts, _pad_version on token lists; "
             "thorough adds an exhaustive grid of normal-form clauses x candidates. non-trivial = specifier and "
             "candidate both valid; distinct = distinct protocol lines")
     trusted = ["Version parsing/rendering (C02) and the version order (C01) as modelled in PkgModel/Version.lean",
@@ -68,6 +70,7 @@ class C03(Prop):
 
     def __init__(self):
         self._label = {}
+        self._expect = {}
 
     # ------------------------------------------------------------ correspondence
     def gen_cases(self, rng, n):
@@ -87,7 +90,16 @@ class C03(Prop):
                 raw = R.arbitrary_text(rng, GV.struct(rng)) if c[0] == "===" else None
                 s = R.spell_clause(rng, *c, raw) if rng.random() < 0.6 else GS.malformed_clause(rng)
                 yield (rng.choice(["spec.parse", "spec.clause", "spec.clause"]), [core.enc(s)])
-            elif k < 0.90:
+            elif k < 0.84:
+                # the two formalisations of the statement against each other: Pep440.admits (Lean, on what the model's
+                # parsers read from the strings) vs the Python reference on the structures the strings were spelled from
+                op, v, wild = R.clause_struct(rng)
+                c = R.candidate_near(rng, v)
+                raw = R.arbitrary_text(rng, c) if op == "===" else None
+                args = [core.enc(R.spell_clause(rng, op, v, wild, raw)), core.enc(GV.spell(rng, c))]
+                self._expect[("s.spec.admits", tuple(args))] = core.encb(R.admits(op, v, wild, c, raw))
+                yield ("s.spec.admits", args)
+            elif k < 0.92:
                 yield ("spec.split", [core.enc(self._split_text(rng))])
             else:
                 yield self._pad_case(rng)
@@ -203,6 +215,8 @@ class C03(Prop):
             except sp.InvalidSpecifier:
                 return "err InvalidSpecifier"
             return "ok " + core.enc(spec.operator) + " " + core.enc(spec.version)
+        if op == "s.spec.admits":
+            return self._expect[(op, tuple(args))]
         if op == "spec.clause":
             try:
                 spec = sp.Specifier(core.dec(args[0]))
